@@ -67,6 +67,16 @@ let handle = function
       let rec zr k ws = if k = 0 then [] else (match ws with o :: t :: u :: d :: tl -> ((name_of o, num t), (u = "1", bytes_of_hex d)) :: zr (k - 1) tl | _ -> failwith "short zone") in
       let out = c12_sign_zone_unsorted (name_of apex) (nat_of_int (int_of_string nkeys)) (zr (int_of_string n) rest) in
       if out = [] then "-" else String.concat " " (List.map (fun (o, t) -> hex_of_name o ^ ":" ^ string_of_int (int_of_n t)) out)
+  | "so" :: nops :: rest ->
+      let sr ws = (match ws with o :: t :: u :: d :: tl -> (((name_of o, num t), (u = "1", bytes_of_hex d)), tl) | _ -> failwith "short record") in
+      let rec srs k ws = if k = 0 then ([], ws) else (let (r, tl) = sr ws in let (l, tl') = srs (k - 1) tl in (r :: l, tl')) in
+      let rec ops k ws = if k = 0 then [] else (match ws with
+        | "I" :: tl -> let (r, tl') = sr tl in OInsert r :: ops (k - 1) tl'
+        | "E" :: n :: tl -> let (l, tl') = srs (int_of_string n) tl in OExtend l :: ops (k - 1) tl'
+        | _ -> failwith "bad op") in
+      let (fin, oks) = c12_sorted_ops (ops (int_of_string nops) rest) in
+      (if oks = [] then "-" else String.concat "" (List.map (fun b -> if b then "1" else "0") oks)) ^ " " ^
+      (if fin = [] then "-" else String.concat " " (List.map (fun ((o, t), (_, d)) -> hex_of_name o ^ ":" ^ string_of_int (int_of_n t) ^ ":" ^ hex_of_bytes d) fin))
   | ["lc"; owner] -> string_of_int (int_of_n (c12_label_count (name_of owner)))
   | ["wce"; labels; owner] ->
       (match c12_wce (num labels) (name_of owner) with
